@@ -916,6 +916,12 @@ def evaluate_case(case, rep, streams, stats_only=False):
                 {"case": case, "field": n, "which": which, "site": "%s:%d" % (site["t"]["file"], site["t"]["line"])}))
             rep.stat("render", "site:%s:%s" % (site["t"]["cls"], site["t"]["func"]))
 
+    # ---- which raise statement rejects a field that the deserializer's own validation let through
+    for n, o in orc.items():
+        if not o["pre"] and o["post"] and o["post"]["site"] is not None:
+            streams.setdefault("ctoronly", []).append((E.nlit(o["post"]["site"]["t"]["id"]),
+                                                       {"case": case, "field": n, "origin": o["post"]["origin"], "mode": "deser", "ff": False}))
+
     # ---- the four configurations
     for mode in ("ctor", "deser"):
         invalid = inv_ctor if mode == "ctor" else inv_deser
@@ -973,7 +979,15 @@ def evaluate_case(case, rep, streams, stats_only=False):
                     pre = {n for n in invalid if orc[n]["pre"]}
                     post_only = {n for n in invalid if not orc[n]["pre"] and orc[n]["post"]}
                     if pre and post_only and (set(invalid) - reported) <= post_only | set(tainted) and post_only - reported:
-                        key += "/constructor-only-errors-lost"
+                        # errors that only the constructor detects are dropped when the pre-validation of the
+                        # deserializer rejects another field (F19).  WHICH check is constructor-only is a fact about
+                        # the code: one finding per lost error, keyed by the raise site that detects it, so that a check
+                        # the deserializer used to run itself and now leaves to the constructor is not covered by F19.
+                        for n in sorted(post_only - reported):
+                            fails.append(("%s/constructor-only-error-lost/%s" % (key, orc[n]["post"]["origin"]),
+                                          "%s; the error of field %s (%s) is detected by the constructor only: %r" % (
+                                              text, n, case.fields[n]["t"], orc[n]["post"]["inner"]), mode, ff))
+                        continue
                 fails.append((key, text, mode, ff))
             # expected element suffix, when exactly this one element was corrupted
             if mode == "ctor" and ff and obs["helper"][0] == "ok" and not tainted:
@@ -1230,7 +1244,7 @@ def run(rep, tier):
     ]
     ws_ok, pats_ok = regex_oracle_checks(rep)
     assert Structure.failing_fast()
-    streams = {"render": [], "construct": [], "deser": [], "parse": [], "guard": []}
+    streams = {"render": [], "construct": [], "deser": [], "parse": [], "guard": [], "ctoronly": []}
     all_fails = []
     cases = []
     for i in range(ncases):
@@ -1270,7 +1284,7 @@ def run(rep, tier):
         # correspondence streams (the same model functions see every random case and every third point)
         npts += 1
         sink = streams if (tier != "quick" or npts % 3 == core.seed() % 3) else \
-            {"render": streams["render"], "construct": [], "deser": [], "parse": []}
+            {"render": streams["render"], "construct": [], "deser": [], "parse": [], "ctoronly": streams["ctoronly"]}
         try:
             fails = evaluate_case(case, rep, sink)
         finally:
@@ -1305,6 +1319,7 @@ def run(rep, tier):
                  ("parse", "pcase", ["parse_mismatch", "parse_unmodelled"]),
                  ("construct", "ccase", ["construct_mismatch", "construct_hyps"]),
                  ("deser", "dcase", ["deser_mismatch"]),
+                 ("ctoronly", "N", ["ctor_only_unlisted"]),
                  ("guard", "gcase", ["guard_mismatch", "guard_schema_bad", "guard_bare_under_hyps", "guard_hyps",
                                      "guard_unmodelled"])]
         results, extra = eval_streams(rep, specs, streams, extra=["obsolete_restrictions"])
@@ -1376,7 +1391,8 @@ def run(rep, tier):
                 info = items[mism[0]][1]
                 if not explained:
                     model = {"render": "Render.v + Gen/Templates.v", "parse": "Parse.v", "construct": "Collect.v",
-                             "deser": "Collect.v", "guard": "Guard.v + Gen/GuardProgs.v + GuardSchema.v"}[name]
+                             "deser": "Collect.v", "ctoronly": "Collect.v: ctor_only_sites",
+                             "guard": "Guard.v + Gen/GuardProgs.v + GuardSchema.v"}[name]
                     what = ("model (Errors/%s) and typedpy differ on %d of %d generated cases; no clause of C18 failed on "
                             "any explored input. First: %s" % (model, len(mism), len(items),
                                                                {k: v for k, v in info.items() if k not in ("case", "cast", "r")}))
